@@ -66,7 +66,7 @@ def gen(rng, tier):
         elif cls == 'varname':
           param = rng.choice(['args', 'kwargs'])
         else:
-          param = rng.choice(['nope', 'zz9'])
+          param = rng.choice(['nope', 'zz9', 'ghost_p'])
         sel_full = cm.full_name(spec)
       elif target == 'method':
         param = rng.choice(['ma', 'mb', 'nope'])
@@ -92,6 +92,10 @@ def gen(rng, tier):
       new['api'] = 'configurable'
       ops.append({'op': 'reregister', 'probe': spec['name'], 'spec': new,
                   'interactive': rng.random() < 0.8})
+    elif r < 0.86:
+      # a registration rejected for its list, after which the function object is
+      # dropped (and its memory reused by whatever is created next)
+      ops.append({'op': 'ghost', 'n': uid[0]})
     elif r < 0.92:
       ops.append({'op': 'call', 'probe': rng.choice(specs)['name'],
                   'scope': rng.choice(['', 'sa', 'sa/sb'])})
@@ -156,7 +160,8 @@ def run(case):
   exec(compile(K_SRC, '<K>', 'exec'), g)  # pylint: disable=exec-used
   K = g['K']
   K.__module__ = 'ginsim_probes'
-  K.meth = gin.register(K.meth)
+  # the method has its own denylist, which must survive its re-homing under K
+  K.meth = gin.register(denylist=['mb'])(K.meth)
   gin.register(module='mm')(K)
   KC = gin.get_configurable(K)
 
@@ -189,7 +194,7 @@ def run(case):
       full = cm.full_name(spec)
       return cm.configurable_param(spec, op['param']), full
     if t == 'method':
-      return op['param'] in ('ma', 'mb'), 'mm.K.meth'
+      return op['param'] == 'ma', 'mm.K.meth'
     return False, None
 
   def do_attempt(op):
@@ -253,6 +258,21 @@ def run(case):
             v('C11.rejection_atomic', [op['api']],
               '%s raised %s but changed the configuration:\n before %r\n after  '
               '%r' % (what, type(exc).__name__, before, after))
+    elif k == 'ghost':
+      import gc
+      g2 = {}
+      exec('def ghost%d(ghost_p=0, a=1):\n  return a\n' % op['n'], g2)  # pylint: disable=exec-used
+      try:
+        gin.external_configurable(g2.pop('ghost%d' % op['n']),
+                                  name='ghost%d' % op['n'],
+                                  allowlist=['a', 'nope'])
+        v('C11.rejected_raises', ['registration-bad-list'],
+          'registration with an unknown allowlist name was accepted')
+      except Exception:  # pylint: disable=broad-except
+        pass
+      g2.clear()
+      gc.collect()
+      log.add('ghost', op['n'])
     elif k == 'reregister':
       spec = op['spec']
       obj = build(spec)
